@@ -60,6 +60,14 @@ def body_class(b):
     return "OTHER"
 
 
+def closure_class(b):
+    """Callee class of a stand-alone closure: by its return type."""
+    ret = b["locals"][0]["ty"].replace(" ", "")
+    if ret.endswith(",()>"):
+        return "F1"
+    return "USER"
+
+
 class ProtocolRun:
     def __init__(self, facts):
         self.facts = facts
@@ -89,13 +97,39 @@ class ProtocolRun:
                 i.some = "S"
         return entry
 
-    def run(self):
+    def closure_bodies(self):
+        """Closures that take the parser input but are handed to code we do not inline (operator callbacks,
+        `custom` parsers): analysed as bodies of their own.  Named by their ordinal among such closures of the
+        same parent (closure numbering proper is not a stable key)."""
+        out = []
+        per_parent = {}
         for b in self.facts.bodies:
-            if not is_protocol_body(b):
+            if b["kind"] != "Closure" or b["key"] in self.I.inlined:
+                continue
+            if not any(b["locals"][i]["ty"].startswith("&mut input::InputRef<") for i in range(1, b["arg_count"] + 1)):
+                continue
+            per_parent.setdefault(b["parent_key"], []).append(b)
+        for pk, bs in per_parent.items():
+            parent = self.facts.by_key.get(pk)
+            for k, b in enumerate(sorted(bs, key=lambda x: x["line"])):
+                b["uname"] = "%s::{parser-closure#%d}" % (parent["uname"] if parent else pk, k)
+                self.facts.by_uname[b["uname"]] = b
+                out.append(b)
+        return out
+
+    def run(self):
+        todo = [b for b in self.facts.bodies if is_protocol_body(b)]
+        self._run(todo)
+        self._run(self.closure_bodies(), closure=True)
+        return self
+
+    def _run(self, todo, closure=False):
+        for b in todo:
+            if not closure and not is_protocol_body(b):
                 continue
             if b["qname"] in PRIMITIVE_BODIES:
                 continue
-            cls = body_class(b)
+            cls = body_class(b) if not closure else closure_class(b)
             self.bodies.append((b, cls))
             try:
                 exits = self.I.analyse(b, self.entry_for(b, cls))
@@ -107,7 +141,6 @@ class ProtocolRun:
                 continue
             self.summaries[b["uname"]] = exits
             self.exit_rules(b, cls, exits)
-        return self
 
     # ------------------------------------------------------------------ exit rules
     def exit_rules(self, b, cls, exits):
